@@ -1039,13 +1039,16 @@ impl<'env> Executor<'env> {
                 "template name was not a string",
             ));
         };
-        if state.loaded_templates.contains(&name) {
+        // loaded templates are recorded under their joined name, so the cycle
+        // check has to use the joined name as well.
+        let name = state.env().join_template_path(name, state.name());
+        if state.loaded_templates.contains(name.as_ref()) {
             return Err(Error::new(
                 ErrorKind::InvalidOperation,
                 format!("cycle in template inheritance. {name:?} was referenced more than once"),
             ));
         }
-        let tmpl = ok!(state.get_template(name));
+        let tmpl = ok!(state.env().get_template(&name));
         let (new_instructions, new_blocks) = ok!(tmpl.instructions_and_blocks());
         state.loaded_templates.insert(new_instructions.name());
         for (name, instr) in new_blocks.iter() {
